@@ -59,4 +59,106 @@ U('C01', 'c01.sub.op', OP_SUB_FF, 'pre_c01', 'post_sub', replace=[(SUBI, 'pre_c0
 U('C01', 'c01.add.assign', OP_ADDA_F, 'pre_c01', 'post_add', replace=[(ADDI, 'pre_c01', 'post_add')], cxx='($1 += $2)')
 U('C01', 'c01.sub.assign', OP_SUBA_F, 'pre_c01', 'post_sub', replace=[(SUBI, 'pre_c01', 'post_sub')], cxx='($1 -= $2)')
 
+
+# ----------------------------------------------------------------------------- C06
+prop('C06', 'proof',
+     'Each of the six comparison operators is verified equal to the mathematical comparison of the raw values '
+     'for all 2^128 raw pairs; isnan, unary minus and abs are verified against their value-model postconditions '
+     'on every finite value and both NaNs (the single excluded raw value INT64_MIN is not a fixed_t value of the '
+     'model); sentinel ordering, involution, trichotomy and transitivity are lemmas over the real operators.')
+for nm, mg, op in (('eq', 'eq', '=='), ('ne', 'ne', '!='), ('lt', 'lt', '<'), ('le', 'le', '<='), ('gt', 'gt', '>'), ('ge', 'ge', '>=')):
+    U('C06', 'c06.cmp.' + nm, '_ZN9fixedmath%sENS_7fixed_tES0_' % mg, 'pre_any2', 'post_' + nm, cxx='($1 %s $2)' % op)
+ISNAN = '_ZN9fixedmath5isnanENS_7fixed_tE'
+NEG = '_ZN9fixedmathngENS_7fixed_tE'
+ABS = '_ZN9fixedmath3absENS_7fixed_tE'
+U('C06', 'c06.isnan', ISNAN, 'pre_valid1', 'post_isnan', cxx='fixedmath::isnan($1)')
+U('C06', 'c06.neg', NEG, 'pre_valid1', 'post_neg', cxx='(-$1)')
+U('C06', 'c06.abs', ABS, 'pre_valid1', 'post_abs', cxx='fixedmath::abs($1)')
+for lem, pre in (('lem_c06_nan_order', 'pre_valid1'), ('lem_c06_isnan_sentinels', 'pre_valid1'), ('lem_c06_negneg', 'pre_valid1'),
+                 ('lem_c06_absneg', 'pre_valid1'), ('lem_c06_trichotomy', 'pre_any2'), ('lem_c06_transitive', None)):
+    U('C06', 'c06.' + lem, lem, pre, None, lemma=True, cxx=lem + '(' + ','.join('$%d' % (i + 1) for i in range({'lem_c06_trichotomy': 2, 'lem_c06_transitive': 3}.get(lem, 1))) + ')')
+
+# ----------------------------------------------------------------------------- C15
+prop('C15', 'proof',
+     'floor and ceil are verified against the bracketing postconditions (integer valued, floor(x) <= x < floor(x)+1, '
+     'ceil(x)-1 < x <= ceil(x), identity on integers) for every raw value with |x| < 2^47-1, including all UB '
+     'obligations; ceil(x) == -floor(-x) is a lemma over the real functions.')
+FLOOR = '_ZN9fixedmath5floorENS_7fixed_tE'
+CEIL = '_ZN9fixedmath4ceilENS_7fixed_tE'
+U('C15', 'c15.floor', FLOOR, 'pre_c15', 'post_floor', cxx='fixedmath::floor($1)')
+U('C15', 'c15.ceil', CEIL, 'pre_c15', 'post_ceil', cxx='fixedmath::ceil($1)')
+U('C15', 'c15.lem_ceil_floor', 'lem_c15_ceil_floor', 'pre_c15', None, lemma=True, cxx='lem_c15_ceil_floor($1)')
+
+# ----------------------------------------------------------------------------- C18
+prop('C18', 'proof',
+     'operator>>, operator<< and operator& are verified for every finite raw value and every count in [INT_MIN, 63] '
+     'against 128-bit specifications: x>>r is floor(x/2^r), x<<r is x*2^r when that is in [lowest,max] and otherwise '
+     'never of opposite sign, negative counts give NaN; & is the bitwise and of the representations (all 2^128 pairs).')
+SHR = '_ZN9fixedmathrsENS_7fixed_tEi'
+SHL = '_ZN9fixedmathlsENS_7fixed_tEi'
+AND = '_ZN9fixedmathanENS_7fixed_tES0_'
+U('C18', 'c18.shr', SHR, 'pre_c18', 'post_shr', cxx='($1 >> $2)', backends=('sat', 'kissat'), timeout=300)
+U('C18', 'c18.shl', SHL, 'pre_c18', 'post_shl', cxx='($1 << $2)', backends=('sat', 'kissat'), timeout=300)
+U('C18', 'c18.and', AND, 'pre_any2', 'post_and', cxx='($1 & $2)')
+
+# ----------------------------------------------------------------------------- C04
+ITYPES = [('a', 'int8_t'), ('s', 'int16_t'), ('i', 'int32_t'), ('l', 'int64_t'),
+          ('h', 'uint8_t'), ('t', 'uint16_t'), ('j', 'uint32_t'), ('m', 'uint64_t')]
+prop('C04', 'proof',
+     'integral_to_fixed<T> and fixed_to_integral<T> are verified for all 8 built-in integral types over every value '
+     '(2^64 for the widest) against specifications over mathematical (128-bit) integers; the constructor, '
+     'arithmetic_to_fixed, promote_to_fixed (mixed arithmetic), the conversion operator and fixed_to_arithmetic are '
+     'verified against the same postconditions with the kernel replaced by its contract; the round trip is a lemma.')
+
+
+def I2F(t): return '_ZN9fixedmath17integral_to_fixedI%svEENS_7fixed_tET_' % t
+def F2I(t): return '_ZN9fixedmath17fixed_to_integralI%svEET_NS_7fixed_tE' % t
+def CTOR(t): return '_ZN9fixedmath7fixed_tC1I%svEERKT_' % t
+def A2F(t): return '_ZN9fixedmath19arithmetic_to_fixedI%svEENS_7fixed_tET_' % t
+def P2F(t): return '_ZN9fixedmath6detail16promote_to_fixedI%svEENS_7fixed_tET_' % t
+def F2A(t): return '_ZN9fixedmath19fixed_to_arithmeticI%svEET_NS_7fixed_tE' % t
+def CONV(t): return '_ZNK9fixedmath7fixed_tcvT_I%svEEv' % t
+
+
+for t, ct in ITYPES:
+    k_i2f = (I2F(t), 'pre_i2f_' + t, 'post_i2f_' + t)
+    k_f2i = (F2I(t), 'pre_finite1', 'post_f2i_' + t)
+    U('C04', 'c04.i2f.%s' % ct, I2F(t), 'pre_i2f_' + t, 'post_i2f_' + t, cxx='fixedmath::integral_to_fixed<%s>($1)' % ct)
+    U('C04', 'c04.f2i.%s' % ct, F2I(t), 'pre_finite1', 'post_f2i_' + t, cxx='fixedmath::fixed_to_integral<%s>($1)' % ct)
+    U('C04', 'c04.ctor.%s' % ct, CTOR(t), 'pre_i2f_' + t, 'post_i2f_' + t, replace=[k_i2f], cxx='fixedmath::fixed_t($1)')
+    U('C04', 'c04.a2f.%s' % ct, A2F(t), 'pre_i2f_' + t, 'post_i2f_' + t, replace=[k_i2f], cxx='fixedmath::arithmetic_to_fixed<%s,void>($1)' % ct)
+    U('C04', 'c04.promote.%s' % ct, P2F(t), 'pre_i2f_' + t, 'post_i2f_' + t, replace=[k_i2f], cxx='fixedmath::detail::promote_to_fixed($1)')
+    U('C04', 'c04.conv.%s' % ct, CONV(t), 'pre_finite1', 'post_f2i_' + t, replace=[k_f2i], cxx='static_cast<%s>($1)' % ct)
+    U('C04', 'c04.f2a.%s' % ct, F2A(t), 'pre_finite1', 'post_f2i_' + t, replace=[k_f2i], cxx='fixedmath::fixed_to_arithmetic<%s>($1)' % ct)
+    U('C04', 'c04.roundtrip.%s' % ct, 'lem_c04_roundtrip_' + t, 'pre_i2f_' + t, None, lemma=True, cxx='lem_c04_roundtrip_%s($1)' % t)
+
+# ----------------------------------------------------------------------------- C05
+prop('C05', 'proof',
+     'floating_point_to_fixed<float|double> is verified for every bit pattern against an integer-exact specification: '
+     'NaN outside (-(2^31-1), 2^31-1) (incl. inf/NaN); inside, |raw - v*65536| <= 0.5 plus one rounding of the sum '
+     '(2^-p relative), exact ties away from zero; no float->int UB. fixed_to_floating_point<double> exact for '
+     '|raw| <= 2^53, <float> equal to the correctly rounded int64->float conversion scaled exactly; '
+     'fixed->double->fixed identity for |raw| < 2^47 (lemma over the real functions).',
+     assumptions=['CBMC\'s IEEE-754 model (round-to-nearest-even, int64->float/double conversion correctly rounded) is the definition of "correctly rounded"'])
+
+
+def FP2F(t): return '_ZN9fixedmath23floating_point_to_fixedI%svEENS_7fixed_tET_' % t
+def F2FP(t): return '_ZN9fixedmath23fixed_to_floating_pointI%svEET_NS_7fixed_tE' % t
+
+
+FPK = {'d': (FP2F('d'), 'pre_anyd', 'post_d2f'), 'f': (FP2F('f'), 'pre_anyf', 'post_f2f')}
+U('C05', 'c05.d2f', FP2F('d'), 'pre_anyd', 'post_d2f', cxx='fixedmath::floating_point_to_fixed<double>($1)', backends=('sat', 'kissat'), timeout=600)
+U('C05', 'c05.f2f', FP2F('f'), 'pre_anyf', 'post_f2f', cxx='fixedmath::floating_point_to_fixed<float>($1)', backends=('sat', 'kissat'), timeout=600)
+U('C05', 'c05.f2d', F2FP('d'), 'pre_f2d', 'post_f2d', cxx='fixedmath::fixed_to_floating_point<double>($1)', backends=('sat', 'kissat'), timeout=600)
+U('C05', 'c05.f2fl', F2FP('f'), 'pre_finite1', 'post_f2fl', cxx='fixedmath::fixed_to_floating_point<float>($1)', backends=('sat', 'kissat'), timeout=600)
+for t, ct in (('d', 'double'), ('f', 'float')):
+    pre, post = FPK[t][1], FPK[t][2]
+    U('C05', 'c05.ctor.' + ct, CTOR(t), pre, post, replace=[FPK[t]], cxx='fixedmath::fixed_t($1)')
+    U('C05', 'c05.a2f.' + ct, A2F(t), pre, post, replace=[FPK[t]], cxx='fixedmath::arithmetic_to_fixed<%s,void>($1)' % ct)
+    if t == 'f':   # a double operand promotes the computation to double (C16); promote_to_fixed<double> is never instantiated
+        U('C05', 'c05.promote.' + ct, P2F(t), pre, post, replace=[FPK[t]], cxx='fixedmath::detail::promote_to_fixed($1)')
+U('C05', 'c05.conv.double', CONV('d'), 'pre_f2d', 'post_f2d', replace=[(F2FP('d'), 'pre_f2d', 'post_f2d')], cxx='static_cast<double>($1)')
+U('C05', 'c05.conv.float', CONV('f'), 'pre_finite1', 'post_f2fl', replace=[(F2FP('f'), 'pre_finite1', 'post_f2fl')], cxx='static_cast<float>($1)')
+U('C05', 'c05.roundtrip', 'lem_c05_roundtrip', 'pre_c05_rt', None, lemma=True, cxx='lem_c05_roundtrip($1)', backends=('sat', 'kissat'), timeout=600)
+
 NOT_APPLICABLE = {}
